@@ -43,10 +43,10 @@ Plain(k, ind, sid) == Ln(k, ind, sid, 0, FALSE, FALSE, FALSE, FALSE, FALSE, 0, F
 \* shapes of a statement block
 Len1  == {"one", "expr", "semi", "cmt", "badone", "star", "asg", "echo", "prn", "exc"}     \* star: "from m import *" (dropped by the dump command)
 ShapeLen(s)  == CASE s \in Len1 -> 1
-                  [] s \in {"ml2", "mlx2", "cmp2", "trunc2", "pair2"} -> 2
+                  [] s \in {"ml2", "mlx2", "cmp2", "trunc2", "pair2", "cmpq2", "mlq2"} -> 2      \* cmpq2 / mlq2: cmp2 / ml2 that print nothing
                   [] s = "f9" -> 4                             \* if / body / column-0 comment / else  (known finding F9)
                   [] OTHER -> 3                               \* ml3 tri3 cmp3 deco3 braw3 f10 mlb3
-ShapeCont(s) == CASE s \in {"ml2", "mlx2", "f10"} -> 1            \* f10: backslash-continued compound header (known finding F10)
+ShapeCont(s) == CASE s \in {"ml2", "mlx2", "f10", "mlq2"} -> 1            \* f10: backslash-continued compound header (known finding F10)
                   [] s \in {"ml3", "tri3", "braw3", "mlb3"} -> 2  \* mlb3: a bracketed statement with an EMPTY line inside
                   [] s = "trunc2" -> 99                       \* never balanced
                   [] OTHER -> 0
